@@ -85,8 +85,6 @@ class Sess(object):
 
     def add_or_renew_pool(self, host, is_host_addition):
         self.w.log.append(('pool-requested', self.i))
-        if self.w.removed:
-            self.w.after_remove.append(('pool-requested', self.i))
         f = Fut()
         f.sess = self
         self.pending.append(f)
@@ -159,7 +157,7 @@ class World(object):
     def _note(self, kind):
         def f(h):
             self.notes.append(kind)
-            if self.removed and kind != 'remove':
+            if self.removed and kind in ('up', 'add'):
                 self.after_remove.append(('listener', kind))
         return f
 
@@ -191,9 +189,26 @@ class World(object):
         return [t for t in self.timers if not t.__self__._cancelled]
 
 
-def h_history(V, steps=5):
+def h_history(V, steps=5, race=False):
     w = World(V)
     cl, host = w.cluster, w.host
+    if race:
+        # one pre-emption: while a thread is inside a host-state method and holds no lock, another thread delivers a
+        # status event for the same host (or removes it) at an acquire/release of the host lock
+        def other(function, name, phase):
+            e = V.pick('pre_event', ['status-down', 'status-up', 'remove'] if not w.removed else ['status-down'])
+            V.tag('preempted', '%s/%s -> %s' % (function, phase, e))
+            if e == 'status-down':
+                w.report_open = False
+                cl.on_down(host, is_host_addition=False)
+                w.report_open = True
+            elif e == 'status-up':
+                cl.on_up(host)
+            else:
+                w.remove()
+        pre = kit.Preempter(V, ('on_up', 'on_down', '_on_up_future_completed', '_start_reconnector', 'on_remove'), other, only_unlocked=True,
+                            enabled=lambda: not w.removed)
+        host.lock = kit.SchedLock('host.lock', pre)
     try:
         trace = []
         for step in range(steps):
@@ -248,6 +263,10 @@ def h_history(V, steps=5):
                 V.check(not live, 'removed-host-has-no-reconnector', note=repr(trace))
                 V.check(not w.after_remove, 'removed-host-is-never-brought-up', note='%r after removal (%r)' % (w.after_remove, trace))
                 V.check(not host.is_up, 'removed-host-stays-down')
+                if not pending:
+                    # a transition that was already under way may have asked the sessions for pools; once it has
+                    # settled nothing of it is left
+                    V.check(not any(s.pool for s in w.sessions), 'removed-host-keeps-no-pool', note=repr(trace))
             elif not host.is_up and not host._currently_handling_node_up and not pending:
                 V.check(len(live) == 1, 'down-host-has-exactly-one-live-reconnection-series', note='%d live after %r' % (len(live), trace))
             if host.is_up and not pending and not w.removed:
@@ -267,4 +286,7 @@ def jobs(tier):
     J = []
     for first in range(3):
         J.append(Job('history/e%d' % first, 'h_history', dict(steps=steps), dict(pin={'ev0': first}, max_paths=600000)))
+    if tier != 'quick':
+        for first in range(3):
+            J.append(Job('race/e%d' % first, 'h_history', dict(steps=3, race=True), dict(pin={'ev0': first}, max_paths=400000, max_seconds=1200)))
     return J
